@@ -105,8 +105,8 @@ def dense_LU(ev):
         for q in range(U["colptr"][j], U["colptr"][j + 1]):
             r = U["rowind"][q]
             v = val(U["nzval"][q], cplx)
-            if v != Z or DU[r][j] == Z:
-                DU[r][j] = v if DU[r][j] == Z else cadd(DU[r][j], v)
+            if v != Z:
+                DU[r][j] = v
     return DL, DU
 
 
@@ -239,7 +239,78 @@ def check_gstrf(ev):
     return {"bad": bad, "factor_ratio": ratio}
 
 
-CHECKERS = {"gssv": check_gssv, "gstrf": check_gstrf}
+def check_gssvx(ev):
+    """expert driver: factor bound on the equilibrated matrix that was factored, residual bound for the caller's
+    original system op(A0) X = B0 (DESIGN C05, float slice / arbitration)"""
+    ty = ev["ty"]
+    cplx = CPLX[ty]
+    eps = EPS[ty]
+    n = ev["n"]
+    tr = ev["fmt"] == "NR"
+    info = ev["info"]
+    res = {"bad": []}
+    lw = ev.get("work", {}).get("lwork", 0)
+    if lw == -1 or info < 0 or (info > 0 and info != n + 1):
+        return res
+    fact = ev["opts"]["Fact"]
+    ilu = ev["fn"] == "gsisx"
+    Fent = [[e[0], e[1], v] for e, v in zip(ev["A0"], ev["A1v"])]
+    F = dense_from_triplets(Fent, n, n, cplx, transpose=tr)
+    u = tok(ev["opts"]["u"])
+    if "L" not in ev or "rowind" not in ev["L"]:
+        return res
+    if ilu:
+        return res
+    if fact != 3:
+        bad, ratio, (DL, DU, E) = factor_bound(ev, F, u, reuse=(fact == 2))
+        res["bad"] += bad
+        res["factor_ratio"] = ratio
+    else:
+        DL, DU = dense_LU(ev)
+        E = absmat_prod(DL, DU, n, n)
+    if ev.get("nrhs", 0) > 0 and "X1" in ev:
+        A = dense_from_triplets(ev["A0"], n, n, cplx)
+        trans = ev["opts"]["Trans"]
+        opA = op_matrix(A, n, trans, cplx)
+        X = [[val(t, cplx) for t in col] for col in ev["X1"]]
+        B = [[val(t, cplx) for t in col] for col in ev["B0"]]
+        pr, pc = ev["perm_r"], ev["perm_c"]
+        EF = [[E[pr[i]][pc[j]] for j in range(n)] for i in range(n)]
+        effN = (trans == 0) if not tr else (trans != 0)      # operation applied to the factored matrix
+        Et = EF if effN else [[EF[j][i] for j in range(n)] for i in range(n)]
+        q = ev["equed"]
+        R = [tok(t) if q in "RB" else Fr(1) for t in ev["R"]]
+        C = [tok(t) if q in "CB" else Fr(1) for t in ev["C"]]
+        D1, D2 = (R, C) if effN else (C, R)
+        if any(d <= 0 for d in D1 + D2):
+            res["bad"].append("C05.nonpositive_scale")
+            return res
+        c = 32 if cplx else 8
+        worst = Fr(0)
+        for k in range(len(X)):
+            x = X[k]
+            b = B[k]
+            y = [cabs1(x[j]) / D2[j] for j in range(n)]
+            for i in range(n):
+                s = Z
+                ax = Fr(0)
+                for j in range(n):
+                    if opA[i][j] != Z and x[j] != Z:
+                        s = cadd(s, cmul(opA[i][j], x[j]))
+                        ax += cabs1(opA[i][j]) * cabs1(x[j])
+                r = cabs1(csub(b[i], s))
+                bound = (c * n * eps * sum(Et[i][j] * y[j] for j in range(n)) + n * eps * cabs1(b[i]) * D1[i]) / D1[i]
+                bound = bound * (1 + 8 * eps) + 4 * n * eps * ax
+                if r > bound:
+                    res["bad"].append("C05.residual_bound")
+                    return res
+                if bound:
+                    worst = max(worst, r / bound)
+        res["residual_ratio"] = float(worst)
+    return res
+
+
+CHECKERS = {"gssv": check_gssv, "gstrf": check_gstrf, "gssvx": check_gssvx}
 
 
 def check_line(ev):
